@@ -26,7 +26,7 @@ def coq_str(s):
 
 def run(c):
     thorough = c.tier == "thorough"
-    c.go2coq_sources = ["load.go"]
+    c.go2coq_sources = ["load.go", "load_ops.go"]
     c.rule = ("stream bytes: random bytes / mutated fixture rules files / mutated generated files; stream notdsl: a fixed catalogue of "
               "type-correct non-DSL files (incl. the shapes that used to crash Load); stream dsl: generated rules (Where atoms include "
               "comparisons over all operand classes: constant, Line, Type.Size, Value.Int(), Text on either side); stream struct: generated "
@@ -46,6 +46,12 @@ def run(c):
     c.require_theories("Load/Place.v", "Load/Validate.v")
     g1 = c.go2coq("placetable", "Gen_Place.v")
     g2 = c.go2coq("validtables", "Gen_Valid.v")
+    # the same op table as JSON: the harness builds a Where atom for every op of it that takes a variable
+    g3 = c.go2coq("optable", "optable.json")
+    ops_path = os.path.join(c.gen, "optable.json")
+    var_ops = []
+    if g3:
+        var_ops = [o["name"] for o in json.load(open(ops_path))["ops"] if "m[$Value]" in o["form"]]
     gen_ok = False
     inst_ok = False
     if g1 and g2:
@@ -59,10 +65,12 @@ def run(c):
         return c.finish()
     state = {"round": 0}
 
-    def observe(seed, nbytes, ndsl, nstruct):
+    def observe(seed, nbytes, ndsl, nstruct, nhist):
         state["round"] += 1
-        rc, out = c.run_harness(hb, ["-seed", str(seed), "-bytes", str(nbytes), "-dsl", str(ndsl), "-struct", str(nstruct), "-repo", c.repo,
-                                     "-tmp", os.path.join(c.work, "tmp%d" % state["round"])], timeout=2400)
+        c.log("harness ...")
+        rc, out = c.run_harness(hb, ["-seed", str(seed), "-bytes", str(nbytes), "-dsl", str(ndsl), "-struct", str(nstruct), "-hist", str(nhist),
+                                     "-repo", c.repo, "-tmp", os.path.join(c.work, "tmp%d" % state["round"])] + (["-ops", ops_path] if g3 else []),
+                                timeout=2400)
         cases = []
         for line in out.splitlines():
             if line.startswith("{"):
@@ -83,7 +91,8 @@ def run(c):
                "From RG.Load Require Import Place Validate.",
                "From RGW Require Import Gen_Place Gen_Valid.",
                "Import ListNotations. Local Open Scope string_scope.",
-               "Definition V := validate gen_num_buckets gen_place_cases gen_kind_names gen_object_names gen_tag_names gen_swap_guard."]
+               "Definition V r := (validate gen_num_buckets gen_place_cases gen_kind_names gen_object_names gen_tag_names gen_swap_guard gen_optab r,",
+               "  (validate_spec gen_num_buckets gen_place_cases gen_kind_names gen_object_names gen_tag_names gen_swap_guard r, rule_wf gen_optab r))."]
         opnd = {"lit": "OLit", "line": "OLine", "size": "OSize", "valueint": "OValueInt", "text": "OText"}
 
         def rule_src(r):
@@ -96,7 +105,8 @@ def run(c):
                     c_ = "(ChkBinary %s %s %s)" % ("true" if a.get("eq") else "false", opnd[a["l"]], opnd[a["r"]])
                 else:
                     c_ = "ChkNone" if chk is None else "(%s %s)" % (chk, coq_str(a.get("arg") or ""))
-                atoms.append("mkAtom [%s] %s" % ("; ".join(coq_str(v) for v in (a.get("vars") or [])), c_))
+                atoms.append("mkAtom [%s] [%s] %s" % ("; ".join("(%s, %s)" % (coq_str(u[0]), coq_str(u[1])) for u in (a.get("uses") or [])),
+                                                      "; ".join(coq_str(v) for v in (a.get("extra") or [])), c_))
             at = "(Some %s)" % coq_str(r["at"]) if r["at"] else "None"
             tmpls = [coq_str(r["report"])] + ([coq_str(r["suggest"])] if r["suggest"] else [])
             return "(mkVRule %s [%s] [%s] %s [%s])" % ("true" if r["comment"] else "false", alts, "; ".join(atoms), at, "; ".join(tmpls))
@@ -113,11 +123,14 @@ def run(c):
             if not ok:
                 c.obligation("coq-eval:" + fname, False, out[-2500:])
                 return {}
-            for m in re.finditer(r"\(\s*(\d+)%?N?,\s*(true|false)\s*\)", re.sub(r"\s+", " ", out)):
-                verdict[int(m.group(1))] = m.group(2) == "true"
+            for m in re.finditer(r"\(\s*(\d+)%?N?,\s*\(?\s*(true|false),\s*\(?\s*(true|false),\s*(true|false)\s*\)?\s*\)?\s*\)", re.sub(r"\s+", " ", out)):
+                # (the loader's model: recorded variables, the specification: mentioned variables, the description is well formed)
+                verdict[int(m.group(1))] = tuple(m.group(k) == "true" for k in (2, 3, 4))
         if len(verdict) != len(dsl):
             c.obligation("coq-eval-parse:" + tag, False, "got %d verdicts for %d cases" % (len(verdict), len(dsl)))
         return verdict
+
+    probed, control = set(), set()
 
     def judge(cases, tag, with_model=True):
         verdict = model_verdicts(cases, tag) if with_model else {}
@@ -126,13 +139,24 @@ def run(c):
             c.count()
             o = x["obs"]
             inp = {"stream": x["stream"], "id": x["id"], "rules.go": x.get("src")}
+            if x["stream"] == "hist":
+                steps = x.get("steps") or []
+                inp["loads"] = [{"what": st["what"], "obs": st["obs"]} for st in steps]
+                kinds = [st["obs"]["kind"] for st in steps]
+                if "error" in kinds and "ok" in kinds[kinds.index("error"):]:
+                    c.coverage["hist_error_then_ok"] = c.coverage.get("hist_error_then_ok", 0) + 1
+                c.coverage["hist_loads"] = c.coverage.get("hist_loads", 0) + len(steps)
+                c.nontriv(("hist", tuple(st["what"] for st in steps)))
             if o["kind"] == "panic":
                 c.fail("oracle", "Load panics", input=inp, observed=o.get("err"), expected="nil or a located error")
             elif o["kind"] == "crash":
                 c.fail("oracle", "Load kills the process (fatal runtime error that recover() cannot catch; stack capped at 96 MB)", input=inp,
                        observed=o.get("err"), expected="nil or a located error")
             elif o["kind"] == "timeout":
-                c.fail("oracle", "Load does not return within 5 s, nor within 30 s when tried again", input=inp, observed="timeout", expected="nil or a located error")
+                c.fail("oracle", "Load does not return within 5 s, nor within 30 s when tried again" + (
+                    " (Load #%d of a history on one engine; the earlier Loads returned)" % (1 + [st["obs"]["kind"] for st in x["steps"]].index("timeout"))
+                    if x["stream"] == "hist" and x.get("steps") and "timeout" in [st["obs"]["kind"] for st in x["steps"]] else ""),
+                       input=inp, observed="timeout", expected="nil or a located error")
             elif o["kind"] == "error" and not o["located"]:
                 c.fail("oracle", "Load error does not name the file and line", input=inp, observed=o.get("err"),
                        expected="an error mentioning rules.go:<line>")
@@ -145,14 +169,35 @@ def run(c):
                 r = x["rule"]
                 if len(r["alts"]) > 1 or r["atoms"] or r["at"] or "$" in r["report"] + r["suggest"]:
                     c.nontriv(x.get("src") or json.dumps(r, sort_keys=True))
+                # the property's own oracle, from what the generator wrote into the source: an accepted rule does not refer, in
+                # Where or At, to a variable that one of its alternatives does not bind
+                refs = [v for a in r["atoms"] for v in (a.get("vars") or [])] + ([r["at"]] if r["at"] else [])
+                unbound = sorted({v for v in refs if v != "$$" and any(v not in alt["vars"] for alt in r["alts"])})
+                if o["kind"] == "ok" and unbound:
+                    c.fail("oracle", "Load accepts a rule whose Where / At clause refers to a variable that not every pattern alternative binds",
+                           input=inp, observed="accepted; unbound: %s%s" % (", ".join(unbound), " ; Run: " + x["run"] if x.get("run") else ""),
+                           expected="a located error (filter / location refers to a non-existing var)")
+                if x.get("ir_diff"):
+                    c.fail("corr", "the variable uses the rule description lists are not those of the converted IR (the model's input does not describe this rule)",
+                           input=inp, observed=x["ir_diff"])
                 if x["id"] in verdict and o["kind"] in ("ok", "error"):
-                    want = verdict[x["id"]]
-                    if (o["kind"] == "ok") != want:
-                        if o["kind"] == "ok":
-                            c.fail("oracle", "Load accepts a rule that the validation model rejects (unbound variable, bad name, unplaceable or invalid pattern)",
+                    loader, spec, wf = verdict[x["id"]]
+                    if not wf:
+                        c.fail("corr", "the rule description names an op that is not an op of the regenerated table that takes a variable", input=inp,
+                               observed=[a.get("uses") for a in r["atoms"]])
+                    elif o["kind"] == "ok" and not spec:
+                        if not unbound:
+                            c.fail("oracle", "Load accepts a rule that the validation specification rejects (unbound variable, bad name, unplaceable or invalid pattern)",
                                    input=inp, observed="accepted" + (" ; Run: " + x["run"] if x.get("run") else ""), expected="a located error")
-                        else:
-                            c.fail("corr", "Load rejects a rule that the validation model accepts", input=inp, observed=o.get("err"))
+                    elif (o["kind"] == "ok") != loader:
+                        c.fail("corr", "Load %s a rule that the model of the loader's validation %s" % (
+                            ("accepts", "rejects") if o["kind"] == "ok" else ("rejects", "accepts")), input=inp, observed=o.get("err") or "accepted")
+                if r.get("probe"):
+                    op, pv = r["probe"].split(":", 1)
+                    if unbound and o["kind"] == "error":
+                        probed.add(op)
+                    if not unbound and o["kind"] == "ok":
+                        control.add(op)
                 if nsample < 3 and o["kind"] == "ok" and len(r["alts"]) > 1:
                     nsample += 1
                     c.sample({"rule": r, "obs": o})
@@ -163,19 +208,27 @@ def run(c):
             1 for x in cases if x["stream"] == "dsl" and x.get("rule") for a in x["rule"]["atoms"] if a.get("chk") == "binary")
         c.coverage["constant_vs_constant_comparisons"] = c.coverage.get("constant_vs_constant_comparisons", 0) + sum(
             1 for x in cases if x["stream"] == "dsl" and x.get("rule") for a in x["rule"]["atoms"] if a.get("chk") == "binary" and a["l"] == "lit" and a["r"] == "lit")
-        for s in ("bytes", "notdsl", "dsl", "struct"):
+        for s in ("bytes", "notdsl", "dsl", "struct", "hist"):
             c.coverage["cases_" + s] = c.coverage.get("cases_" + s, 0) + sum(1 for x in cases if x["stream"] == s)
             c.coverage["accepted_" + s] = c.coverage.get("accepted_" + s, 0) + sum(1 for x in cases if x["stream"] == s and x["obs"]["kind"] == "ok")
 
     if thorough:
         for k in range(3):
-            judge(observe(c.seed * 31 + k, 1500, 2000, 1200), "t%d" % k)
+            judge(observe(c.seed * 31 + k, 1500, 2000, 1200, 400), "t%d" % k)
     else:
-        judge(observe(c.seed, 300, 700, 220), "main")
+        judge(observe(c.seed, 300, 540, 200, 24), "main")
+    # bound-variable checking was probed through EVERY op of the regenerated table that takes a variable: rejected with a variable
+    # that no / not every alternative binds, accepted with a bound one
+    if g3:
+        c.obligation("every-variable-op-probed", set(var_ops) <= probed and set(var_ops) <= control,
+                     "ops that take a variable: %d; rejected with an unbound variable: %d; accepted with a bound one: %d; missing: %s" % (
+                         len(var_ops), len(probed), len(control), sorted((set(var_ops) - probed) | (set(var_ops) - control))), count=1)
+        c.coverage["variable_ops"] = len(var_ops)
+        c.coverage["variable_ops_probed_unbound"] = len(probed & set(var_ops))
 
     def search():
         for k in range(1, 4):
-            judge(observe(c.seed * 1009 + k, 1500, 1500, 1500), "s%d" % k, with_model=gen_ok)
+            judge(observe(c.seed * 1009 + k, 1500, 1500, 1500, 300), "s%d" % k, with_model=gen_ok)
             if any(f["kind"] == "oracle" and not f.get("finding") for f in c.failures):
                 break
 
